@@ -1,6 +1,7 @@
 (* C05 commands (codes 5000 + sub): decoding of trees / formatters and encoding of results. *)
 From Coq Require Import List ZArith NArith Bool.
 From BS Require Import Base.Sexp Base.Types Model.Render Model.Reparse Model.SmartQuotes Model.Build Spec.BuildSpec Spec.RoundTrip.
+From BS Require Model.EntitySubst.
 Import ListNotations.
 Open Scope Z_scope.
 
@@ -64,10 +65,11 @@ Definition s_snode (n : snode) : sexp :=
   let p := sn_pay n in
   L [sopt snat (sn_parent n); sstr (p_name p); sopt sstr (p_prefix p); slist (spair sstr sstr) (p_attrs p);
      sN (p_cls p); sbool (p_void p)].
-(* the token-level re-parse with the text reader of Model/SmartQuotes.v (bs4's handle_entityref /
-   handle_charref over html.parser's reference syntax) for character data and attribute values *)
+(* the token-level re-parse: character data through the text reader of Model/SmartQuotes.v (bs4's handle_entityref /
+   handle_charref over html.parser's reference syntax), attribute values through C09's model of html.unescape —
+   the readers of C05_roundtrip_html / C05_roundtrip_minimal_unescape *)
 Definition reread (check : bool) (enc : bool) (f : fmt) (t : node) : list Build.event :=
-  read_tokens read_text read_text (html_rcfg check) (tokens_of enc f t).
+  read_tokens read_text EntitySubst.unescape (html_rcfg check) (tokens_of enc f t).
 
 Definition disp_c05 (sub : Z) (args : list sexp) : sexp :=
   match sub, args with
